@@ -191,7 +191,7 @@ def C16_3(ctx, facts):
 
 
 def C16_4_5(ctx, facts):
-    sp = facts.fn("client::conn::dns::SocketAddrs::set_port")
+    sp = facts.unit(facts.fn("client::conn::dns::SocketAddrs::set_port"))
     ctx.touched(sp)
     it = [c for c in sp.calls() if c.matches(r"IntoIterator.*::into_iter$|VecDeque.*::iter_mut$")]
     st = [c for c in sp.calls() if c.matches(r"SocketAddr::set_port$")]
@@ -201,7 +201,7 @@ def C16_4_5(ctx, facts):
         ctx.check(any(r.kind == "arg" and r.desc == "port" for r in rr), "set_port|value", "the port written is the parameter", "port roots %s" % sorted(map(repr, rr)), c.where())
         r0 = sp.roots(c.args[0])
         ctx.check(any(r.kind == "call" and r.site.matches(r"Iterator.*::next$|IterMut.*::next$") for r in r0), "set_port|each-element", "it is applied to the element yielded by the iterator", "set_port target roots %s" % sorted(map(repr, sig(r0))), c.where())
-    f = facts.fn("client::conn::transport::tcp::TcpTransport::connect::{closure#0}")
+    f = facts.unit(facts.fn("client::conn::transport::tcp::TcpTransport::connect::{closure#0}"))
     ctx.touched(f)
     spc = f.calls("client::conn::dns::SocketAddrs::set_port")
     cg = f.calls("client::conn::transport::tcp::TcpTransport::connecting")
@@ -216,14 +216,14 @@ def C16_4_5(ctx, facts):
     for c in spc:
         rr = f.roots(c.args[1])
         ctx.check(any(("port" in r.desc) for r in rr if r.kind in ("arg", "upvar")), "TcpTransport::connect|port-arg", "the port applied is connect()'s port argument", "port roots %s" % sorted(map(repr, sig(rr))), c.where())
-    call = facts.method("client::conn::transport::tcp::TcpTransport", "Service", "call")
+    call = facts.unit(facts.method("client::conn::transport::tcp::TcpTransport", "Service", "call"))
     gh = call.calls("client::conn::transport::tcp::get_host_and_port")
     ctx.floor("TcpTransport::call|get_host_and_port", len(gh), 1, "get_host_and_port(uri)")
     for c in gh:
         rr = call.roots(c.args[0])
         ctx.check(any(r.kind == "arg" and r.desc.startswith("req.uri") for r in rr), "TcpTransport::call|port-from-uri", "host and port derive from the request URI", "roots %s" % sorted(map(repr, sig(rr))), c.where())
     # C16.5
-    g = facts.fn("client::conn::transport::tcp::TcpTransport::connecting")
+    g = facts.unit(facts.fn("client::conn::transport::tcp::TcpTransport::connecting"))
     ctx.touched(g)
     so = g.calls(SP)
     ctx.floor("connecting|sort_preferred", len(so), 1, "sort_preferred call")
@@ -246,7 +246,7 @@ def C16_4_5(ctx, facts):
             a1 = g.roots(fb[0].args[1])
             ok2 = any("local_address_ipv4" in r.desc for r in a0 if r.kind == "arg") and any("local_address_ipv6" in r.desc for r in a1 if r.kind == "arg")
         ctx.check(ok2, "connecting|preference-from-binding", "the preference is IpVersion::from_binding(local_address_ipv4, local_address_ipv6)", "preference roots %s" % sorted(map(repr, rr)), c.where())
-    fbf = facts.fn("client::conn::dns::IpVersion::from_binding")
+    fbf = facts.unit(facts.fn("client::conn::dns::IpVersion::from_binding"))
     ap = AbsPaths(fbf)
     some = ("variant", "Some", ())
     none = ("variant", "None", ())
